@@ -767,7 +767,7 @@ static Boolean GetSymSection(char* Name, LongInt* Erg, tStrComp const* pUnexpCom
     Name[l - 1] = '\0';
     q           = RQuotPos(Name, '[');
     Name[l - 1] = ']';
-    if (Name + l - q <= 1) {
+    if (!q || (Name + l - q <= 1)) {
         if (pUnexpComp) {
             WrStrErrorPos(ErrNum_InvSymName, pUnexpComp);
         } else {
